@@ -28,6 +28,36 @@ SET_VERSION_CASES = [
 ]
 
 
+def run_set_version(pattern, current, target):
+    """Run `update --set-version target` on a two-file project; returns what happened."""
+    import re
+
+    ensure_src()
+    d = tempfile.mkdtemp(prefix="c03sv_")
+    try:
+        cfg = (
+            f'[bumpver]\ncurrent_version = "{current}"\nversion_pattern = "{pattern}"\ncommit = false\ntag = false\npush = false\n\n'
+            '[bumpver.file_patterns]\n"bumpver.toml" = [\'current_version = "{version}"\']\n"mod.py" = [\'__version__ = "{version}"\']\n'
+        )
+        open(os.path.join(d, "bumpver.toml"), "w").write(cfg)
+        open(os.path.join(d, "mod.py"), "w").write(f'# module\n__version__ = "{current}"\n')
+        env = dict(os.environ, PYTHONPATH=SRC_ROOT)
+        p = subprocess.run([sys.executable, "-m", "bumpver", "update", "--set-version", target], cwd=d, env=env, capture_output=True, text=True)
+        mod = open(os.path.join(d, "mod.py")).read()
+        cfg_after = open(os.path.join(d, "bumpver.toml")).read()
+        m = re.search(r"New Version: (\S+)", p.stderr + p.stdout)
+        return dict(
+            rc=p.returncode,
+            announced=m.group(1) if m else None,
+            written=re.search(r'__version__ = "([^"]*)"', mod).group(1),
+            in_cfg=re.search(r'current_version = "([^"]*)"', cfg_after).group(1),
+            changed=(mod != f'# module\n__version__ = "{current}"\n' or cfg_after != cfg),
+            stderr=p.stderr[-300:],
+        )
+    finally:
+        shutil.rmtree(d, ignore_errors=True)
+
+
 def set_version_case(pattern, current, target):
     """None, or what disagrees. A rejected --set-version (exit 1, nothing written) is fine."""
     ensure_src()
